@@ -73,7 +73,17 @@ def check_case(case, ctx, tm, fsr):
         if obj is None:
             return None
         try:
-            return obj.gTM()
+            M = obj.gTM()
+            # every product / inverse / constructed object is one pose however it is read: the six-vector side must describe the
+            # same element (this is where a result with a correct matrix and a short-cut six-vector shows)
+            taa = np.asarray(obj.gTAA(), dtype=float).reshape(-1)
+            if taa.shape == (6,) and isinstance(M, np.ndarray) and M.shape == (4, 4) and np.all(np.isfinite(taa)):
+                Mv = se3.rp(se3.exp3(taa[3:]), taa[:3])
+                t = tol.entry_tol(tol.maxabs(M[:3, 3]), True, max(dmax, tol.maxabs(M[:3, 3])))
+                if tol.maxabs(Mv[:3, :3] - M[:3, :3]) > tol.ABS5 or tol.maxabs(Mv[:3, 3] - M[:3, 3]) > t:
+                    ctx.clause(clause)
+                    ctx.violation(clause, key + "/six_vector_is_another_pose", {"rot": tol.maxabs(Mv[:3, :3] - M[:3, :3]), "pos": tol.maxabs(Mv[:3, 3] - M[:3, 3])}, case)
+            return M
         except Exception as e:
             ctx.clause(clause)
             ctx.violation(clause, key + "/no_matrix/" + type(e).__name__, {"exc": repr(e)[:300]}, case)
